@@ -3,6 +3,7 @@ from __future__ import annotations
 
 import fcntl
 import hashlib
+import itertools
 import json
 import os
 import random
@@ -35,6 +36,9 @@ TRUSTED_BASE = [
 
 # which generated sections (translator/gen.py) each property's obligations read
 GEN_SECTIONS = {"C17": ["resolver"], "C18": ["mapping"], "C19": ["discovery"], "C20": ["w3c"]}
+
+
+BATCH = int(os.environ.get("VERIF_BATCH", "6000"))
 
 
 def sh(cmd, **kw):
@@ -381,44 +385,79 @@ def run_check(plug: Plugin, tier: str, seed: int, level_note=""):
     exh = plug.exhaustive(tier)
     cases += exh
     n = plug.counts[tier]
-    cases += list(plug.generate(rng, n))
-    log(f"[{pid}] {len(cases)} cases ({ncorpus} corpus, {len(exh)} exhaustive block); observing the implementation ...")
-    obs = observe_all(plug, cases)
-    t1 = time.time()
-    res = run_lines([l for _, _, l in obs])
-    t2 = time.time()
-    log(f"[{pid}] impl {t1 - t0:.1f}s, model {t2 - t1:.1f}s")
+    total_cases = len(cases) + n
+    log(f"[{pid}] {total_cases} cases ({ncorpus} corpus, {len(exh)} exhaustive block); observing the implementation ...")
     known = [k for k in load_known() if k.get("property") == pid and k.get("status") == "known"]
     matchers = plug.known_matchers()
     stats = {}
     bad, diff, glue = [], [], []
+    nbad = ndiff = bad_dropped = 0
+    known_hits = {}
     invalid = 0
     nontriv = set()
     evaluations = 0
     samples = []
-    for (c, o, _), r in zip(obs, res):
-        if o and o[0] == "harness-error":
-            glue.append({"case": plain(c), "error": o[1]})
-            continue
-        if r == [-1] or r == [-2]:
-            glue.append({"case": plain(c), "error": "case not decodable by the model"})
-            continue
-        same, valid, pm, pi, m = classify(r)
-        if not valid:
-            invalid += 1
-            continue
-        evaluations += 1
-        plug.stats(c, o, stats)
-        if plug.nontrivial(c, o):
-            nontriv.add(encode(c))
-        if pm != 1:
-            glue.append({"case": plain(c), "error": f"P(model)={pm} on a valid case: theorem/extraction glue mismatch"})
-        if pi != 1:
-            bad.append((c, o, m, pi, excl_ok(r)))
-        elif not same:
-            diff.append((c, o, m))
-        if len(samples) < 3 and plug.nontrivial(c, o):
-            samples.append(plug.sample(c, o) if hasattr(plug, "sample") else plain(c))
+    first_case = None
+    t_impl = t_model = 0.0
+    # the cases are processed in bounded batches (memory stays flat however deep the tier is)
+    stream = itertools.chain(cases, plug.generate(rng, n))
+    while True:
+        batch = list(itertools.islice(stream, BATCH))
+        if not batch:
+            break
+        if first_case is None:
+            first_case = batch[0]
+        ta = time.time()
+        obs = observe_all(plug, batch)
+        tb = time.time()
+        res = run_lines([l for _, _, l in obs])
+        tc = time.time()
+        t_impl += tb - ta
+        t_model += tc - tb
+        for (c, o, _), r in zip(obs, res):
+            if o and o[0] == "harness-error":
+                if len(glue) < 20:
+                    glue.append({"case": plain(c), "error": o[1]})
+                continue
+            if r == [-1] or r == [-2]:
+                if len(glue) < 20:
+                    glue.append({"case": plain(c), "error": "case not decodable by the model"})
+                continue
+            same, valid, pm, pi, m = classify(r)
+            if not valid:
+                invalid += 1
+                continue
+            evaluations += 1
+            plug.stats(c, o, stats)
+            nt = plug.nontrivial(c, o)
+            if nt:
+                nontriv.add(hashlib.blake2b(encode(c).encode(), digest_size=12).digest())
+            if pm != 1 and len(glue) < 20:
+                glue.append({"case": plain(c), "error": f"P(model)={pm} on a valid case: theorem/extraction glue mismatch"})
+            if pi != 1:
+                nbad += 1
+                exok = excl_ok(r)
+                hit = None
+                for kf in known:
+                    f = matchers.get(kf.get("matcher"))
+                    # a listed finding suppresses a failure only if that is all that fails on this case
+                    if f and exok and f(c, o):
+                        hit = kf
+                        break
+                if hit is not None:
+                    known_hits[hit["id"]] = known_hits.get(hit["id"], 0) + 1
+                elif len(bad) < 400:
+                    bad.append((c, o, m, pi, exok))
+                else:
+                    bad_dropped += 1
+            elif not same:
+                ndiff += 1
+                if len(diff) < 100:
+                    diff.append((c, o, m))
+            if len(samples) < 3 and nt:
+                samples.append(plug.sample(c, o) if hasattr(plug, "sample") else plain(c))
+        del obs, res
+    log(f"[{pid}] impl {t_impl:.1f}s, model {t_model:.1f}s")
     violations = 0
     printed = []
     rc = 0
@@ -439,23 +478,26 @@ def run_check(plug: Plugin, tier: str, seed: int, level_note=""):
     # failing inputs on the implementation
     seen_known = set()
     reported = 0
+    for kf in known:
+        if kf["id"] in known_hits:
+            seen_known.add(kf["id"])
+            print(f"KNOWN-FINDING: property={pid} {kf['what']}")
+    violations += bad_dropped
     for c, o, m, pi, exok in bad:
-        hit = None
-        for k in known:
-            f = matchers.get(k.get("matcher"))
-            # a listed finding suppresses a failure only if that is all that fails on this case
-            if f and exok and f(c, o):
-                hit = k
-                break
-        if hit:
-            if hit["id"] not in seen_known:
-                seen_known.add(hit["id"])
-                print(f"KNOWN-FINDING: property={pid} {hit['what']}")
-            continue
         if reported >= 1:
             violations += 1
             continue
-        small = shrink(plug, c, lambda r: r["pi"] != 1)
+        def still_unknown_failure(r):
+            # keep shrinking only while the case fails for a reason that no listed finding explains
+            if r["pi"] == 1:
+                return False
+            for kf in known:
+                f = matchers.get(kf.get("matcher"))
+                if f and r.get("exok") and f(r["case"], r["obs"]):
+                    return False
+            return True
+
+        small = shrink(plug, c, still_unknown_failure)
         live = driver.Live()
         ev = evaluate_one(plug, live, small)
         live.close()
@@ -490,7 +532,7 @@ def run_check(plug: Plugin, tier: str, seed: int, level_note=""):
                 payload["differing_case"] = plain(ev["case"] if ev else c)
                 payload["impl_obs"] = plain(ev["obs"] if ev else o)
                 payload["model_obs"] = plain(ev["model"] if ev else m)
-                payload["differing_cases_total"] = len(diff)
+                payload["differing_cases_total"] = ndiff
                 if ev and hasattr(plug, "explain"):
                     payload["explain"] = plug.explain(ev["case"], ev["obs"], ev["model"])
             p = write_replay(pid, "tie", payload)
@@ -514,15 +556,16 @@ def run_check(plug: Plugin, tier: str, seed: int, level_note=""):
             "evaluations": evaluations,
             "distinct_nontrivial": len(nontriv),
             "rule": plug.rule,
-            "samples": samples or [plain(cases[0])] if cases else [],
+            "samples": samples or ([plain(first_case)] if first_case is not None else []),
             "corpus_cases": ncorpus,
             "exhaustive_block_cases": len(exh),
             "exhaustive": bool(getattr(plug, "exhaustive_flag", False)) and len(exh) > 0,
             "invalid_cases_skipped": invalid,
             "disagreements_checked": evaluations,
-            "model_impl_disagreements": len(diff),
-            "property_failures_on_impl": len(bad),
+            "model_impl_disagreements": ndiff,
+            "property_failures_on_impl": nbad,
             "known_findings_matched": sorted(seen_known),
+            "known_finding_cases": known_hits,
             "distribution": stats,
             "explanation": getattr(plug, "explanation", ""),
         },
@@ -533,6 +576,6 @@ def run_check(plug: Plugin, tier: str, seed: int, level_note=""):
     evdir = os.environ.get("VERIF_EVIDENCE_DIR") or os.path.join(ROOT, "evidence")  # override: developer tools only (seed matrix)
     os.makedirs(evdir, exist_ok=True)
     json.dump(ev, open(os.path.join(evdir, f"{pid}.json"), "w"), indent=1, ensure_ascii=False)
-    log(f"[{pid}] {tier}: {evaluations} evaluated, {len(nontriv)} non-trivial, {len(diff)} diffs, {len(bad)} failures, "
+    log(f"[{pid}] {tier}: {evaluations} evaluated, {len(nontriv)} non-trivial, {ndiff} diffs, {nbad} failures, "
         f"obligations {obl['discharged']}/{obl['obligations']}, {wall:.1f}s, rc={rc}")
     return rc
